@@ -27,10 +27,10 @@ ASSUMPTIONS = [
 ]
 BUDGET = {"quick": 80, "thorough": 900}
 ROUNDS = {"thorough": 8}
-FLOORS = {"overlay.C11.recomputed": {"quick": 50, "thorough": 800}, "operations": {"quick": 3000, "thorough": 30000}, "comparisons": {"quick": 10000, "thorough": 100000}, "graphs": 8, "op_kinds": 8, "optimizer_runs": {"quick": 200, "thorough": 2000}, "optimizer_kinds": 4,
+FLOORS = {"overlay.C11.recomputed": {"quick": 50, "thorough": 800}, "operations": {"quick": 3000, "thorough": 30000}, "comparisons": {"quick": 10000, "thorough": 100000}, "graphs": 8, "op_kinds": 8, "optimizer_runs": {"quick": 200, "thorough": 2000}, "optimizer_kinds": 4, "step_size_searches": {"quick": 100, "thorough": 1000},
           "handlers_reached": 15}
 
-OPS = ["optimizer-run", "assign", "assign", "assign", "assign-view", "assign-cat", "assign-transformed", "sample", "rsample", "operator-accept", "operator-reject", "data-edit", "requires-grad"]
+OPS = ["optimizer-run", "hmc-step-size-search", "assign", "assign", "assign", "assign-view", "assign-cat", "assign-transformed", "sample", "rsample", "operator-accept", "operator-reject", "data-edit", "requires-grad"]
 INVERTIBLE = ("ExpTransform", "SigmoidTransform", "LogTransform", "AffineTransform", "StickBreakingTransform", "CumSumExpTransform")
 _counts = {}
 
@@ -260,6 +260,51 @@ def _run_case(case):
         C["optimizer_kinds"] = sorted(set(C.get("optimizer_kinds", [])) | {kind})
         return "Optimizer.run (%s, %d iterations, maximise %s) on %s" % (kind, iterations, e, ", ".join(chosen))
 
+    def run_step_size_search():
+        """an HMCOperator constructed with find_reasonable_step_size: its trial trajectories move the parameters and put them back;
+        afterwards every model is that of the (unchanged) parameter values"""
+        import contextlib
+        import io
+
+        from torchtree import Parameter as P_
+        from torchtree.inference.hmc.integrator import LeapfrogIntegrator
+        from torchtree.inference.hmc.operator import HMCOperator
+
+        cand_e = [i for i in g["evals"] if i not in g.get("stochastic", ())]
+        if not cand_e:
+            return None
+        e = str(rng.choice(cand_e))
+        for pid in leaves:
+            dic[pid].tensor = dic[pid].tensor.detach().clone()
+            dic[pid].requires_grad = True
+        val0 = dic[e]()
+        val = val0.sum()
+        reached = []
+        if val0.numel() == 1 and torch.isfinite(val) and val.requires_grad:  # (an HMC target is a scalar density)
+            try:
+                val.backward()
+            except (RuntimeError, NotImplementedError):
+                return None
+            reached = [pid for pid in leaves if dic[pid].grad is not None and bool(torch.isfinite(dic[pid].grad).all()) and leaves[pid] == "real" and dic[pid].tensor.dim() == 1]
+        for pid in leaves:
+            dic[pid].tensor = dic[pid].tensor.detach().clone()
+        if not reached:
+            return None
+        chosen = [str(x) for x in rng.choice(reached, size=min(len(reached), int(rng.integers(1, 3))), replace=False)]
+        params = [dic[pid] for pid in chosen]
+        dim = sum(int(p.tensor.shape[-1]) for p in params)
+        before = [p.tensor.detach().clone() for p in params]
+        try:
+            with contextlib.redirect_stdout(io.StringIO()):
+                HMCOperator("vt.hmc", dic[e], params, LeapfrogIntegrator("vt.int", 3, 1e-3), P_("vt.mass", torch.ones(dim, dtype=torch.float64)), find_reasonable_step_size=True)
+        except ValueError:
+            # (the search left the support of the density: the integrator's own guard) - put the values back ourselves
+            for p, t in zip(params, before):
+                p.tensor = t
+            return None
+        C["step_size_searches"] = C.get("step_size_searches", 0) + 1
+        return "HMCOperator constructed with find_reasonable_step_size on %s (joint %s)" % (", ".join(chosen), e)
+
     ok = True
     for step in range(case["length"]):
         op = str(rng.choice(OPS + (["heights-shape"] * 3 if extra_leaves else []) + (["assign-view-of-transformed"] if tviews else []) + (["assign-data"] * 2 if data_leaves else [])))
@@ -347,6 +392,8 @@ def _run_case(case):
                 desc = "assign through view %s of a transformed parameter" % vid
             elif op == "optimizer-run":
                 desc = run_optimizer()
+            elif op == "hmc-step-size-search":
+                desc = run_step_size_search()
             elif op == "assign-data" and data_leaves:
                 did = str(rng.choice(data_leaves))
                 cur = dic[did].tensor
